@@ -205,6 +205,18 @@ def oracle(case, ctx):
 
                     exp = sut(window_at_cutoff)
                     ctx.label("window_forecast_after_update_predict")
+                elif spec["kind"] == "trend" and model.get("up_without_refit"):
+                    # a fitted trend line is a function of time: after update_predict calls that
+                    # did not touch the parameters it is read off at cutoff + steps, wherever the
+                    # remembered data end
+                    def line_at_cutoff():
+                        g = pools.build_forecaster(spec)
+                        src = series_of(model) if model["params_current"] else model["fit_data"]
+                        g.fit(mk(list(src.index), src.to_numpy(), ik))
+                        return g.predict(ForecastingHorizon([model["cutoff"] + h for h in steps], is_relative=False))
+
+                    exp = sut(line_at_cutoff)
+                    ctx.label("trend_forecast_after_update_predict")
                 discs += check_forecast(p, model, steps, desc, "predict_after_update_predict", exp)
                 continue
             if kind != "update_predict":
@@ -343,6 +355,7 @@ def oracle(case, ctx):
             if isinstance(cc, Raised) or int(cc) != c:
                 discs.append(D("cutoff_not_restored_after_update_predict", "%s: cutoff %r was %d" % (desc, cc, c)))
             # the forecaster has seen y_future but keeps the old cutoff
+            model["up_without_refit"] = (not op["update_params"]) and model.get("up_without_refit", True)
             model["beyond_cutoff"] = True
         if discs:
             break
